@@ -124,6 +124,119 @@ struct Stall {
     redirects: bool,
 }
 
+// ---------------------------------------------------------------- scheduling perturbation
+// "however the library's internal threads are scheduled": every log record emitted by a thread other
+// than the one that calls the library is a preemption point — that thread is put to sleep there.
+// On the unchanged tree the deadline thread logs nothing between its two actions, so nothing changes;
+// a change that lets it do anything observable (or merely reorders its actions around a log call)
+// gets its window widened to PERTURB_MS.
+const PERTURB_MS: u64 = 450;
+static PERTURB_ON: std::sync::atomic::AtomicBool = std::sync::atomic::AtomicBool::new(false);
+thread_local! { static IS_CALLER: std::cell::Cell<bool> = std::cell::Cell::new(false); }
+struct PerturbLog;
+impl log::Log for PerturbLog {
+    fn enabled(&self, _: &log::Metadata) -> bool {
+        true
+    }
+    fn log(&self, _: &log::Record) {
+        if PERTURB_ON.load(std::sync::atomic::Ordering::SeqCst) && !IS_CALLER.with(|c| c.get()) {
+            std::thread::sleep(Duration::from_millis(PERTURB_MS));
+        }
+    }
+    fn flush(&self) {}
+}
+static PLOG: PerturbLog = PerturbLog;
+
+fn perturbed(sink: &mut Sink, thorough: bool) {
+    let _ = log::set_logger(&PLOG);
+    log::set_max_level(log::LevelFilter::Trace);
+    PERTURB_ON.store(true, std::sync::atomic::Ordering::SeqCst);
+    // (name, what the server sends after the request, closes?, how the caller reads)
+    let heads: [(&str, &[u8]); 3] = [
+        ("close", b"HTTP/1.1 200 OK\r\n\r\nfirst half of the body, "),
+        ("length", b"HTTP/1.1 200 OK\r\nContent-Length: 50\r\n\r\nfirst half of the body, "),
+        ("chunked", b"HTTP/1.1 200 OK\r\nTransfer-Encoding: chunked\r\n\r\n32\r\nfirst half of the body, "),
+    ];
+    let reps = if thorough { 3 } else { 1 };
+    let mut hs = vec![];
+    let results: Arc<Mutex<Vec<(String, Result<(), (String, String)>)>>> = Arc::new(Mutex::new(vec![]));
+    for _ in 0..reps {
+        for (fname, wire) in heads {
+            for mode in ["bytes", "reads"] {
+                for peer_closes_early in [false, true] {
+                    let results = results.clone();
+                    let wire = wire.to_vec();
+                    hs.push(std::thread::spawn(move || {
+                        IS_CALLER.with(|c| c.set(true));
+                        let script = if peer_closes_early {
+                            // complete close-delimited / cut length+chunked body, closed well before the deadline
+                            vec![Srv::ReadRequest, Srv::Send(wire.clone()), Srv::At(100), Srv::Close]
+                        } else {
+                            vec![Srv::ReadRequest, Srv::Send(wire.clone()), Srv::Hold(2500)]
+                        };
+                        let (port, _acc) = server(vec![script]);
+                        let t0 = Instant::now();
+                        let rb = attohttpc::get(format!("http://127.0.0.1:{}/", port)).timeout(Duration::from_millis(300)).read_timeout(Duration::from_millis(5000)).follow_redirects(false);
+                        let mut got: Vec<u8> = vec![];
+                        let mut events: Vec<String> = vec![];
+                        match rb.send() {
+                            Err(e) => events.push(format!("send-failed:{}", io_kind(&e))),
+                            Ok(mut resp) => {
+                                if mode == "bytes" {
+                                    match resp.bytes() {
+                                        Ok(b) => {
+                                            got = b;
+                                            events.push("z".into())
+                                        }
+                                        Err(e) => events.push(format!("E:{}", io_kind(&e))),
+                                    }
+                                } else {
+                                    let mut buf = [0u8; 64];
+                                    for _ in 0..6 {
+                                        match resp.read(&mut buf) {
+                                            Ok(0) => events.push("z".into()),
+                                            Ok(k) => {
+                                                got.extend_from_slice(&buf[..k]);
+                                                events.push(format!("d{}", k))
+                                            }
+                                            Err(e) => events.push(format!("E:{:?}", e.kind())),
+                                        }
+                                    }
+                                }
+                            }
+                        }
+                        let el = t0.elapsed().as_millis() as u64;
+                        let name = format!("{}-{}-{}", fname, mode, if peer_closes_early { "peer-closed" } else { "peer-silent" });
+                        let line = format!("{} after {} ms, {} bytes", events.join(","), el, got.len());
+                        let clean_end = events.iter().any(|e| e == "z");
+                        let complete = fname == "close" && peer_closes_early;
+                        let o = if !complete && clean_end {
+                            Err((format!("cut-reported-complete-{}", if peer_closes_early { "peer-closed" } else { "deadline" }), format!("{}: {}", name, line)))
+                        } else if complete && !(clean_end && !events.iter().any(|e| e.starts_with("E"))) {
+                            Err(("spurious-failure-perturbed".to_string(), format!("{}: {}", name, line)))
+                        } else if !peer_closes_early && el > 300 + 250 + PERTURB_MS {
+                            Err(("late-perturbed".to_string(), format!("{}: {}", name, line)))
+                        } else {
+                            Ok(())
+                        };
+                        results.lock().unwrap().push((name, o));
+                    }));
+                }
+            }
+        }
+    }
+    for h in hs {
+        h.join().unwrap();
+    }
+    PERTURB_ON.store(false, std::sync::atomic::Ordering::SeqCst);
+    log::set_max_level(log::LevelFilter::Off);
+    let mut rs = std::mem::take(&mut *results.lock().unwrap());
+    rs.sort_by(|a, b| a.0.cmp(&b.0));
+    for (name, o) in rs {
+        sink.push(Case { tags: vec!["kind=perturbed".into(), format!("scenario={}", name)], op: format!("nop perturbed-{}", name), impl_line: "nop".into(), oracle: o });
+    }
+}
+
 pub fn generate(seed: u64, tier: &str, sink: &mut Sink) {
     let mut rng = Rng::new(seed ^ 0xC13);
     let thorough = tier == "thorough";
@@ -389,4 +502,6 @@ pub fn generate(seed: u64, tier: &str, sink: &mut Sink) {
             oracle: o,
         });
     }
+    // ---------------------------------------------------------------- (4) deadline thread delayed at its log points
+    perturbed(sink, thorough);
 }
